@@ -1,14 +1,49 @@
 """C45: harness operations, encoding and oracle.  A REAL Cluster / Session (real __init__, inline executor during
 construction only) / HostConnection / ControlConnection / reconnection handlers with fake connections, a manual
 executor and a manual scheduler (vf.cstate_harness)."""
-from vf.cstate_harness import Harness, HookLock
+import concurrent.futures as cf
+from vf.cstate_harness import Harness, HookLock, _CURRENT
+
+MODE = {'idle': 0, 'busy': 1, 'lost': 2}
+
+
+def _harness_wait(fs, timeout=None, return_when=cf.ALL_COMPLETED):
+    """stands for concurrent.futures.wait inside cassandra.cluster: the waiting thread blocks while the executor's worker
+    threads go on -- with the manual executor that means: run the queued tasks that are being waited for, oldest first."""
+    H = _CURRENT[0]
+    fs = set(fs)
+    while H is not None:
+        pending = [f for f in fs if not f.done()]
+        if not pending or (return_when == cf.FIRST_COMPLETED and len(pending) < len(fs)):
+            break
+        idx = next((i for i, t in enumerate(H.executor.queue) if t[0] in pending), None)
+        if idx is None:
+            break
+        H.executor.run(idx)
+    return cf.wait(fs, timeout=0, return_when=return_when)
+
+
+class NeverConvict(object):
+    """conviction policy for C45: a lost connection does not convict the host (C25 covers conviction), so the pool
+    replaces its connection instead of shutting itself down"""
+
+    def __init__(self, host):
+        self.host = host
+
+    def add_failure(self, exc):
+        return False
+
+    def reset(self):
+        pass
 
 
 class H45(Harness):
     def __init__(self, nhosts):
         Harness.__init__(self, {'nhosts': nhosts, 'hosts': ['up'] * nhosts, 'nsess': 0, 'sched': None}, real_control=True)
         c = self.cluster
-        self.refusals = []
+        self.cl.wait_futures = _harness_wait
+        for h in self.hosts[:nhosts]:
+            h.conviction_policy = NeverConvict(h)
         # control connection: real connect() (first host of the plan)
         c.control_connection.connect()
         # one real Session built by its real __init__: pool creation tasks run inline during construction only
@@ -22,6 +57,27 @@ class H45(Harness):
         self.session = s
         self.req_timers = []
         self.attempts0 = len(self.attempts)
+        self.pool_ids = {}
+        self._number_pools()
+        H = self
+
+        class Pools(dict):
+            """Session._pools: numbers every pool at the moment it is installed"""
+
+            def __setitem__(self, k, v):
+                if id(v) not in H.pool_ids:
+                    H.pool_ids[id(v)] = (len(H.pool_ids), v)
+                dict.__setitem__(self, k, v)
+        s._pools = Pools(s._pools)
+
+    def _number_pools(self):
+        for h in self.hosts[:self.cfg['nhosts']]:
+            p = self.session._pools.get(h)
+            if p is not None and id(p) not in self.pool_ids:
+                self.pool_ids[id(p)] = (len(self.pool_ids), p)       # keep p alive: ids are not reused
+
+    def pool_id(self, p):
+        return self.pool_ids[id(p)][0] if id(p) in self.pool_ids else 99
 
     # ------------------------------------------------------------------ observation
     def task45(self, item):
@@ -29,9 +85,11 @@ class H45(Harness):
         name = getattr(fn, '__name__', '')
         if name == 'run_add_or_renew_pool':
             cv = dict(zip(fn.__code__.co_freevars, [c.cell_contents for c in fn.__closure__]))
-            return ('addpool', self.hid(cv['host']))
+            return ('addpool', self.hid(cv['host']), int(f in self.session._initial_connect_futures))
         if name == '_replace':
-            return ('replace', self.hid(fn.__self__.host), args[0].cid)
+            conn = args[0]
+            mode = 'lost' if not conn.orphaned_threshold_reached else ('busy' if conn.in_flight != len(conn.orphaned_request_ids) else 'idle')
+            return ('replace', self.hid(fn.__self__.host), self.pool_id(fn.__self__), conn.cid, mode)
         if name == '_reconnect':
             return ('ccreconnect',)
         return ('other', name)
@@ -47,13 +105,16 @@ class H45(Harness):
 
     def snap45(self):
         c = self.cluster
+        self._number_pools()
         pools = []
-        for i, h in enumerate(self.hosts):
+        for i, h in enumerate(self.hosts[:self.cfg['nhosts']]):
             p = self.session._pools.get(h)
             if p is None:
                 pools.append(None)
             else:
-                pools.append((p._connection.cid if p._connection is not None else -1, int(bool(p.is_shutdown))))
+                pools.append({'pid': self.pool_id(p), 'conn': p._connection.cid if p._connection is not None else -1,
+                              'shut': int(bool(p.is_shutdown)), 'repl': int(bool(p._is_replacing)),
+                              'trash': sorted((x.cid for x in p._trash), reverse=True)})
         cc = c.control_connection
         return {'nconn': len(self.conns), 'attempts': len(self.attempts) - self.attempts0, 'closed': sorted(x.cid for x in self.conns if x.is_closed),
                 'cl_down': int(bool(c.is_shutdown)), 'sess_down': int(bool(self.session.is_shutdown)),
@@ -63,31 +124,48 @@ class H45(Harness):
                 'timers': [self.timer45(t) for t in self.scheduler.timers]}
 
     # ------------------------------------------------------------------ operations
+    def pool_of(self, h):
+        return self.session._pools.get(self.hosts[h])
+
     def enabled45(self):
         ops = []
         for h in range(self.cfg['nhosts']):
-            ops.append(('pooltask', h))
-            p = self.session._pools.get(self.hosts[h])
-            if p is not None and p._connection is not None and not any(self.task45(t)[:2] == ('replace', h) for t in self.executor.queue):
-                ops.append(('replace', h))
+            ops.append(('pooltask', h, 0))
+            if not self.session.is_shutdown:
+                ops.append(('pooltask', h, 1))
+            p = self.pool_of(h)
+            if p is not None and p._connection is not None and not p.is_shutdown:
+                if not p._is_replacing:
+                    ops += [('replace', h, 0), ('replace', h, 1)]
+                ops.append(('connlost', h))
+            if p is not None and any(not x.is_closed for x in p._trash):
+                ops.append(('trashdone', h))
             ops.append(('startrecon', h))
         ops += [('ccreconnect',), ('clshutdown',), ('sessshutdown',), ('submit',), ('request',)]
-        for k, t in enumerate(self.executor.queue):
-            kind = self.task45(t)[0]
+        descs = [self.task45(t) for t in self.executor.queue]
+        for k, d in enumerate(descs):
+            kind = d[0]
             for o in ('ok', 'err'):
-                for d in (0, 1, 2):
-                    if o == 'err' and d and kind != 'ccreconnect':
+                for dm in (0, 1, 2, 3):
+                    if o == 'err' and dm and kind != 'ccreconnect':
                         continue            # a shutdown during a FAILING connect is modelled for the control connection only
-                    if d == 2 and (o == 'err' or kind not in ('replace', 'addpool')):
-                        continue            # d = 2: shutdown right before the locked check+install region
-                    ops.append(('run', k, o, d))
+                    if dm == 2 and (o == 'err' or kind not in ('replace', 'addpool')):
+                        continue            # 2: shutdown right before the locked check+install region
+                    if dm == 3 and (o == 'err' or kind != 'ccreconnect'):
+                        continue            # 3: shutdown after _try_connect's own check, before _set_new_connection
+                    ops.append(('run', k, o, dm))
+            if kind == 'addpool':
+                rest = descs[:k] + descs[k + 1:]
+                for j, dj in enumerate(rest):
+                    if dj[0] == 'addpool':
+                        ops.append(('nested', k, j))
         if not self.scheduler.is_shutdown:
             for k, t in enumerate(self.scheduler.timers):
                 for o in ('ok', 'err'):
-                    for d in (0, 1):
-                        if o == 'err' and d and self.timer45(t)[0] != 'ctl':
+                    for dm in (0, 1):
+                        if o == 'err' and dm and self.timer45(t)[0] != 'ctl':
                             continue
-                        ops.append(('fire', k, o, d))
+                        ops.append(('fire', k, o, dm))
         return ops
 
     def step45(self, op):
@@ -96,13 +174,35 @@ class H45(Harness):
         out = 'nothing'
         if kind == 'pooltask':
             f = self.session.add_or_renew_pool(self.hosts[op[1]], False)
+            if f is not None and len(op) > 2 and op[2]:
+                self.session._initial_connect_futures.add(f)      # an initial pool creation that has not started yet
             out = 'accepted' if f is not None else 'refused'
         elif kind == 'replace':
-            p = self.session._pools.get(self.hosts[op[1]])
-            if p is not None and p._connection is not None:
-                p._connection.orphaned_threshold_reached = True       # what borrow_connection reacts to
-                f = self.session.submit(p._replace, p._connection)
+            p = self.pool_of(op[1])
+            if p is not None and p._connection is not None and not p._is_replacing and not p.is_shutdown:
+                conn = p._connection
+                conn.orphaned_threshold_reached = True       # what borrow_connection reacts to
+                conn.in_flight = 1 if (len(op) > 2 and op[2]) else 0           # busy: a request that is not orphaned is still in flight
+                p._is_replacing = True
+                f = self.session.submit(p._replace, conn)
                 out = 'accepted' if f is not None else 'refused'
+        elif kind == 'connlost':
+            p = self.pool_of(op[1])
+            if p is not None and p._connection is not None and not p.is_shutdown:
+                conn = p._connection
+                conn.is_defunct = True
+                conn.close()
+                n = len(self.executor.queue)
+                was = p._is_replacing
+                p.return_connection(conn, stream_was_orphaned=True)
+                if not was:
+                    out = 'accepted' if len(self.executor.queue) > n else 'refused'
+        elif kind == 'trashdone':
+            p = self.pool_of(op[1])
+            if p is not None and p._trash:
+                conn = max(p._trash, key=lambda x: x.cid)
+                if not conn.is_closed:
+                    p.return_connection(conn)                # its last request completes (in_flight 1 -> 0)
         elif kind == 'ccreconnect':
             n = len(self.executor.queue)
             c.control_connection.reconnect()
@@ -124,6 +224,30 @@ class H45(Harness):
                 out = 'accepted'
         elif kind == 'request':
             out = self.request()
+        elif kind == 'nested':
+            q = self.executor.queue
+            if op[1] < len(q) and self.task45(q[op[1]])[0] == 'addpool':
+                rest = q[:op[1]] + q[op[1] + 1:]
+                if op[2] < len(rest) and self.task45(rest[op[2]])[0] == 'addpool':
+                    inner = rest[op[2]]
+                    for h in range(self.cfg['nhosts']):
+                        self.outcome[h] = 'ok'
+                    sess = self.session
+                    orig = sess._lock
+
+                    def other_thread():
+                        # another executor thread runs a second pool creation to completion in the window between
+                        # this creation's connect and its locked install
+                        sess._lock = orig
+                        try:
+                            self.executor.run(self.executor.queue.index(inner))
+                        finally:
+                            pass
+                    sess._lock = HookLock(orig, 0, other_thread)
+                    try:
+                        self.executor.run(op[1])
+                    finally:
+                        sess._lock = orig
         elif kind in ('run', 'fire'):
             seq = self.executor.queue if kind == 'run' else self.scheduler.timers
             if op[1] < len(seq) and not (kind == 'fire' and self.scheduler.is_shutdown):
@@ -132,6 +256,8 @@ class H45(Harness):
                 restore = None
                 if op[3] == 1:
                     self.after_connect = c.shutdown          # the cluster is shut down while the connect is in progress
+                elif op[3] == 3:
+                    self.after_handshake = c.shutdown        # ... after _try_connect's own check (during the metadata refresh)
                 elif op[3] == 2 and kind == 'run':
                     # forced interleaving: the shutdown lands after the connect, right before the lock that guards the
                     # "shut down meanwhile?" test + install of the new connection / pool
@@ -158,16 +284,18 @@ class H45(Harness):
                             pass
                 finally:
                     self.after_connect = None
+                    self.after_handshake = None
                     if restore is not None:
                         restore()
         else:
             raise ValueError(op)
+        # cancelled futures never run: they are gone from the executor's point of view
+        self.executor.queue[:] = [t for t in self.executor.queue if not t[0].cancelled()]
         return out, self.snap45()
 
     def request(self):
         """A new request through the real Session.execute_async; returns how it ended right away."""
         s = self.session
-        n_timers = len(self.req_timers)
         sent0 = sum(len(getattr(cn, 'sent', ())) for cn in self.conns)
         try:
             rf = s.execute_async('SELECT 1', timeout=10.0)
@@ -183,14 +311,23 @@ class H45(Harness):
 OUTC = {'refused': 0, 'accepted': 1, 'nothing': 2, 'sent': 1}
 
 
+def enc_task(t):
+    if t[0] == 'addpool':
+        return 100 + 10 * t[1] + t[2]
+    if t[0] == 'replace':
+        return 100000 + 10000 * t[1] + 1000 * MODE[t[4]] + 100 * t[2] + t[3]
+    if t[0] == 'ccreconnect':
+        return 300
+    return 9999
+
+
 def encode45(snap, out):
     e = [snap['nconn'], snap['attempts'], snap['cl_down'], snap['sess_down'], snap['cc_down'], snap['sched_down'], snap['cc_conn'], -1]
     e += snap['closed'] + [-2]
     for p in snap['pools']:
-        e += [-9] if p is None else [p[0], p[1]]
+        e += [-9] if p is None else [p['pid'], p['conn'], p['shut'], p['repl'], -8] + p['trash'] + [-7]
     e.append(-3)
-    for t in snap['queue']:
-        e.append({'addpool': lambda t: 100 + t[1], 'replace': lambda t: 2000 + 100 * t[1] + t[2], 'ccreconnect': lambda t: 300}.get(t[0], lambda t: 9999)(t))
+    e += [enc_task(t) for t in snap['queue']]
     e.append(-4)
     for t in snap['timers']:
         e.append(10 + t[1] if t[0] == 'recon' else 20 if t[0] == 'ctl' else 9999)
@@ -200,10 +337,17 @@ def encode45(snap, out):
 
 def coq_op(op):
     k = op[0]
-    if k in ('pooltask', 'replace', 'startrecon'):
-        return '%s %d' % ({'pooltask': 'OPoolTask', 'replace': 'OReplace', 'startrecon': 'OStartRecon'}[k], op[1])
+    b = lambda x: 'true' if x else 'false'
+    if k == 'pooltask':
+        return 'OPoolTask %d %s' % (op[1], b(op[2] if len(op) > 2 else 0))
+    if k == 'replace':
+        return 'OReplace %d %s' % (op[1], b(op[2] if len(op) > 2 else 0))
+    if k in ('connlost', 'trashdone', 'startrecon'):
+        return '%s %d' % ({'connlost': 'OConnLost', 'trashdone': 'OTrashDone', 'startrecon': 'OStartRecon'}[k], op[1])
+    if k == 'nested':
+        return 'ORunNested %d %d' % (op[1], op[2])
     if k in ('run', 'fire'):
-        return '%s %d %s %s' % ('ORun' if k == 'run' else 'OFire', op[1], 'Ok' if op[2] == 'ok' else 'Err', 'true' if op[3] else 'false')
+        return '%s %d %s %s' % ('ORun' if k == 'run' else 'OFire', op[1], 'Ok' if op[2] == 'ok' else 'Err', b(op[3]))
     return {'ccreconnect': 'OCCReconnect', 'clshutdown': 'OClusterShutdown', 'sessshutdown': 'OSessionShutdown', 'submit': 'OSubmit', 'request': 'ORequest'}[k]
 
 
@@ -230,19 +374,31 @@ def oracle45(H, op, out, snap, mem):
     started = H.attempt_after_shutdown[n0:]
     mem['natt'] = len(H.attempt_after_shutdown)
     # a task that was already queued may make ONE attempt after the shutdown (it then sees the flag); any further attempt
-    # of the same step that starts after Cluster.shutdown is a new connection attempt started after shutdown
-    late = [i for i, after in enumerate(started) if after and i > 0]
+    # of the same step, and any attempt made by the shutdown call itself, that starts after the shutdown flag was set is a
+    # new connection attempt started after shutdown
+    first_ok = {'run': 1, 'fire': 1, 'nested': 2}.get(op[0], 0)
+    late = [i for i, after in enumerate(started) if after and i >= first_ok]
     if late:
-        finds.append(('attempt-started-after-shutdown', '%d connection attempt(s) were started after Cluster.shutdown by %r (attempts of this step: %r)'
+        finds.append(('attempt-started-after-shutdown', '%d connection attempt(s) were started after the shutdown by %r (attempts of this step: %r)'
                       % (len(late), op, started), 'C45_no_new_connections'))
     prev = mem.get('prev')
     if prev is not None and prev['cl_down']:
         if len(snap['queue']) > len(prev['queue']) or len(snap['timers']) > len(prev['timers']):
             finds.append(('new-work-after-shutdown', 'a task or timer was accepted after Cluster.shutdown by %r' % (op,), 'C45_no_new_connections'))
-        if snap['nconn'] > prev['nconn'] and op[0] not in ('run',):
+        if snap['nconn'] > prev['nconn'] and op[0] not in ('run', 'nested'):
             finds.append(('new-connection-after-shutdown', 'a connection was opened after Cluster.shutdown by %r' % (op,), 'C45_no_new_connections'))
     if prev is not None and prev['sess_down'] and op[0] in ('submit', 'request', 'pooltask') and out != 'refused':
         finds.append(('not-refused.' + op[0], '%s after Session.shutdown ended as %r instead of being refused' % (op[0], out), 'C45_requests_refused'))
+    # outside shutdown: a pool that lost its place in Session._pools must not keep connections open (nobody will close them)
+    held = set([snap['cc_conn']])
+    for p in snap['pools']:
+        if p is not None:
+            held.add(p['conn'])
+            held.update(p['trash'])
+    orphan = [c for c in range(snap['nconn']) if c not in snap['closed'] and c not in held]
+    if orphan and not snap['cl_down'] and not snap['sess_down']:
+        finds.append(('connection-without-owner', 'connections %r are open but belong to no pool of the session and not to the control connection '
+                      '(no shutdown will ever close them)' % orphan, 'C45_all_closed'))
     mem['prev'] = snap
     return finds
 
@@ -265,14 +421,10 @@ def gen_and_run45(rng, nhosts, n, script=None):
                 if i == shut_at and not H.cluster.is_shutdown:
                     op = rng.choice([('clshutdown',), ('clshutdown',), ('sessshutdown',)])
                 else:
-                    runs = [o for o in en if o[0] in ('run', 'fire')]
-                    subs = [o for o in en if o[0] not in ('run', 'fire', 'clshutdown', 'sessshutdown')]
+                    runs = [o for o in en if o[0] in ('run', 'fire', 'nested')]
+                    subs = [o for o in en if o[0] not in ('run', 'fire', 'nested', 'clshutdown', 'sessshutdown')]
                     r = rng.random()
                     op = rng.choice(runs) if runs and r < 0.45 else rng.choice(subs) if r < 0.93 else rng.choice([('clshutdown',), ('sessshutdown',)])
-            if op[0] == 'run' and op[1] < len(H.executor.queue):
-                mem['last_task'] = H.task45(H.executor.queue[op[1]])
-            else:
-                mem['last_task'] = ('',)
             out, snap = H.step45(op)
             ops.append(op)
             encs.append(encode45(snap, out))
